@@ -396,8 +396,10 @@ def run_property(prop_id, tier, seed, only_clause=None, scale=1.0, procs=None):
         from concurrent.futures.process import BrokenProcessPool
         ctx = multiprocessing.get_context("forkserver")
         results = []
-        with ProcessPoolExecutor(max_workers=procs, mp_context=ctx,
-                                 max_tasks_per_child=4) as ex:
+        # (no max_tasks_per_child: with it the executor of CPython 3.12.1 stops replacing
+        # retired workers once every worker has served its quota and waits for ever with tasks
+        # still queued -- seen on the thorough tier of a property with > 4 x 16 shards)
+        with ProcessPoolExecutor(max_workers=procs, mp_context=ctx) as ex:
             futures = [ex.submit(_run_shard, t) for t in tasks]
             for t, f in zip(tasks, futures):
                 try:
